@@ -417,6 +417,48 @@ def check(run):
                    f"{fi.qualname} makes one recursive call per element at every level (the product of the collection sizes): its caller bounds that "
                    "product before calling it", why, mech="branching-recursion census + dominating product guard in the caller")
     run.note("branching_recursions_called", n_branch)
+    # a memoised function hashes its arguments: Node defines __eq__ without __hash__, lists and dicts are unhashable
+    from ..effects import CACHE_DECORATORS
+    HASHABLE = {"bytes", "str", "int", "bool", "float", "None", "bytes | None", "str | None", "int | None"}
+    for fi in sorted(F, key=lambda f: f.fq):
+        if isinstance(fi.node, ast.Lambda):
+            continue
+        if any(prog.dotted(fi.module, d.func if isinstance(d, ast.Call) else d) in CACHE_DECORATORS for d in fi.decorators):
+            a_ = fi.node.args
+            bad_ = [x.arg for x in a_.posonlyargs + a_.args + a_.kwonlyargs if x.arg not in ("self", "cls") and
+                    (x.annotation is None or ast.unparse(x.annotation) not in HASHABLE) and not ast.unparse(x.annotation or ast.Constant(0)).startswith("tuple[")]
+            run.ob("R1-exception-escape", f"{fi.fq}/memoised-arguments-hashable", not bad_, f"{fi.module.rel}:{fi.lineno}",
+                   "a memoised function on the scan path only takes hashable arguments", f"parameters {bad_} may be unhashable (Node, list, dict): the cache lookup raises TypeError",
+                   mech="decorator census x parameter annotations")
+    # ------------------------------------------------------------------ R5 regular expressions: the third-party matcher backtracks.
+    # Decided: no alternation nested in an unbounded repeat has two alternatives matching the same text (2^k parses of k
+    # iterations between the SAME iteration boundaries - the shape the matcher's per-position repeat guards do not collapse).
+    # Not decided: ambiguity of the iteration boundaries themselves (listed in the evidence; left to the matcher's guards).
+    from .. import rx as _rx
+    n_pat, boundary_amb = 0, []
+    for key, where, pat in common.regex_patterns(prog):
+        try:
+            ov = _rx.overlapping_alternatives(pat)
+        except _rx.RxError as e_:
+            run.ob("R5-regex-backtracking", f"{key}/parsed", False, where, "the pattern is analysable", str(e_), mech="regex parse tree")
+            continue
+        n_pat += 1
+        wit = "; ".join(f"alternation #{k}: alternatives {i + 1} and {j + 1} both match {w!r}" for k, i, j, w in ov[:3])
+        run.ob("R5-regex-backtracking", f"{key}/alternatives-under-repeat-disjoint", not ov, where,
+               "inside a repeat without a small bound, the alternatives of an alternation match disjoint sets of texts", wit +
+               (": a text repeating that word k times has 2^k parses; a failing continuation makes a backtracking matcher try them all" if ov else ""),
+               mech="pairwise language intersection of the alternatives (DFA product)")
+        if run.tier == "thorough":
+            try:
+                if _rx.exponential_ambiguity(pat) is not None:
+                    boundary_amb.append(key)
+            except _rx.RxError:
+                pass
+    run.floor("R5-regex-backtracking", 45)
+    run.note("patterns_analysed", n_pat)
+    if run.tier == "thorough":
+        run.note("patterns_with_iteration_boundary_ambiguity_not_judged", boundary_amb)
+    run.assume("the regex module's repeat guards keep iteration-boundary ambiguity (e.g. `(?:X{4,}S?){5,}`) polynomial; only same-boundary alternation overlap is decided")
     # depth-limited recursion of scan_node is C07's (imported as a floor: the check is re-run there)
     run.assume("scan_node's recursion terminates by the depth guard (decided under C07 R1/R2) ")
 
